@@ -824,7 +824,12 @@ class _ProbeContextInjectorNode(_ProbeNode):
             List[str]: A list of context keys that the processor will add or create
             as a result of execution.
         """
-        return [cls.context_key]
+        keys = [cls.context_key]
+        # A derived probe (parameter sweep) also publishes ``<var>_values``
+        for key in getattr(cls.processor, "get_created_keys", lambda: [])():
+            if key not in keys:
+                keys.append(key)
+        return keys
 
     def __str__(self) -> str:
         """
